@@ -115,14 +115,16 @@ CHECKS = {
             "level_note": "Trusts the builder (validated against SQLite 3.40.1 integrity_check + SELECT on a sample and before any report).",
         },
         "rule": ("tables: 0-80 rows, 1-4 columns, rowids dense/gapped/random/extreme, cells per leaf 1-4 or as many as fit, fan-out 2-4 or max, separator keys optionally above the left subtree's maximum, "
-                 "page sizes 512/1024/4096, overflowing values, optional INTEGER PRIMARY KEY alias. One evaluation = one table with all its probes (probe counts are reported per depth). "
+                 "page sizes 512/1024/4096, overflowing values, optional INTEGER PRIMARY KEY alias; plus tables written by SQLite (core grammar, bulk rows) and then deleted from / updated / vacuumed, probed at every present rowid, "
+                 "both neighbours, 0, +-1 and int64 min/max against SQLite's own SELECT. One evaluation = one table with all its probes (probe counts are reported per depth). "
                  "Non-trivial = tree depth >= 2. Distinct = fingerprint of the image spec."),
         "assumptions": ["system libsqlite3 (3.40.1) validates the builder"],
         "min_nontrivial": {"quick": 200, "thorough": 3000},
-        "required_classes": ["depth=2", "depth=3", "depth=4", "alias=true", "sqlite-validated"],
+        "required_classes": ["depth=2", "depth=3", "depth=4", "alias=true", "sqlite-validated", "sqlite:rows<=1000", "sqlite:pages<=100"],
         "timeout": {"quick": 300, "thorough": 1500},
         "jobs": [
             job("builder", "c04", ["TestC04Builder"], 1500, 20000, 2, 10),
+            job("sqlite", "c04", ["TestC04SQLite"], 150, 2500, 2, 6),
         ],
     },
     "C13": {
@@ -384,7 +386,7 @@ CHECKS = {
                  "(a plan other than 'all', a bad query, or rows). Distinct = fingerprint of the spec."),
         "assumptions": ["system libsqlite3 (3.40.1) writes the databases"],
         "min_nontrivial": {"quick": 150, "thorough": 3000},
-        "required_classes": ["plan:all", "plan:close", "plan:cancel", "plan:cancel-async", "plan:corrupt", "plan:truncate", "bad:table", "bad:column", "bad:not-select", "star=true", "rows<=1000"],
+        "required_classes": ["plan:all", "plan:close", "plan:cancel", "plan:cancel-async", "plan:corrupt", "plan:truncate", "plan:prepared", "bad:table", "bad:column", "bad:not-select", "star=true", "rows<=1000"],
         "timeout": {"quick": 500, "thorough": 2400},
         "jobs": [
             job("driver", "c19", ["TestC19Driver"], 200, 3000, 3, 10, race=True),
